@@ -56,6 +56,8 @@ func (a atom) text() string { return a.Txt }
 
 func (t term) text() string {
 	switch t.K {
+	case "empty": // an empty list item ("1,,2"): outside the documented grammar
+		return ""
 	case "star":
 		return "*"
 	case "qmark":
